@@ -36,6 +36,7 @@ class VLoop(asyncio.SelectorEventLoop):
         super().__init__()
         self._vt = T0
         self._task_count = 0
+        self.deadlocked = False
         self.set_task_factory(lambda loop, coro, **kw: DetTask(coro, loop=loop, **kw))
 
     def time(self):
@@ -49,6 +50,11 @@ class VLoop(asyncio.SelectorEventLoop):
             when = self._scheduled[0]._when
             if when > self._vt:
                 self._vt = when
+        if not self._ready and not self._scheduled and not self._stopping:
+            # nothing runnable and no timer pending: with the in-memory transport nothing can ever wake the loop again
+            # (every task waits for something that will not happen).  Stop instead of blocking in select() for ever.
+            self.deadlocked = True
+            self.stop()
         super()._run_once()
 
 
@@ -353,6 +359,10 @@ class Sim:
         """schedule an environment action at virtual time t (seconds after start)"""
         self.loop.call_at(T0 + t, fn, *a)
 
+    def at_rel(self, dt, fn, *a):
+        """schedule an environment action dt seconds from now"""
+        self.loop.call_at(self.loop.time() + dt, fn, *a)
+
     def enqueue(self, m):
         self.ev('enqueue', getattr(m, 'log_id', ''))
         self.esme.broker.queue.put_nowait(m)
@@ -407,5 +417,16 @@ class Sim:
             for tk in [x for x in asyncio.all_tasks() if x is not asyncio.current_task()]:
                 tk.cancel()
             await asyncio.sleep(0)
-        self.loop.run_until_complete(main())
+        try:
+            self.loop.run_until_complete(main())
+        except RuntimeError:
+            if not self.loop.deadlocked:
+                raise
+            # every task is waiting for something that cannot happen any more: start() never ended
+            self.ev('deadlock')
+            self.result = ('deadlock', None)
+        except asyncio.CancelledError:
+            # the environment task itself was cancelled by the code under test: start() did not end in an orderly way
+            self.ev('environment-cancelled')
+            self.result = ('cancelled', None)
         return self.result
